@@ -84,6 +84,10 @@ def lift(value, ty=None):
         elems = [lift(v, ty.elem) for v in value]
         tmpl, _ = ty.elem.fresh("tmpl")
         return SymList.from_pylist("lst", elems, tmpl)
+    if isinstance(ty, T.FiltT):
+        if ty.elem is None:
+            raise Outside("FiltT without element type cannot be lifted")
+        return [lift(v, ty.elem) for v in value]
     if isinstance(ty, T.SetT):
         s = CSet.empty(ty.arity)
         for k in value:
